@@ -147,13 +147,15 @@ def _interp(ctx):
                         continue
                     dcls = f"poly{min(order, 4)}"
                 ratio = float(rng.choice([1.05, 1.2, 1.4]))
-                vmax = float(rng.uniform(80, 900))
+                vmax = float(rng.uniform(80, 900)) if (icombo + rep) % 2 else float(rng.uniform(900, 3000))
+                # sampled range in ln V: from the 30 % of a wide compression study down to the 10-14 % of a typical one
+                span = [0.3, 0.2, 0.14, 0.1][(icombo + rep) % 4]
                 volumes = vmax * numpy.exp(numpy.sort(rng.uniform(-0.35, 0, size=nv - 1)))[::-1]
                 volumes = numpy.concatenate([[vmax], volumes[volumes < vmax * 0.999]])[:nv]
                 if len(volumes) < nv:
                     volumes = vmax * numpy.exp(numpy.linspace(0, -0.3, nv))
                 # keep nodes apart so that conditioning is about the method, not about a degenerate grid
-                volumes = vmax * numpy.exp(numpy.linspace(0, -0.3, nv) + rng.uniform(-0.01, 0.01, size=nv) * (numpy.arange(nv) > 0))
+                volumes = vmax * numpy.exp(numpy.linspace(0, -span, nv) + rng.uniform(-0.03, 0.03, size=nv) * span * (numpy.arange(nv) > 0))
                 nq, np_ = int(rng.integers(1, 4)), 3 * int(rng.integers(1, 4))
                 table, par = gen_table(rng, volumes, nq, np_, dcls)
                 qin = make_input(volumes, table)
@@ -166,7 +168,7 @@ def _interp(ctx):
                 r = _call(ctx, qin, v, method, order, case_id, cls)
                 nontriv = nq * np_ > 3
                 ctx.evaluation(cls, (method, nv, order, dcls, rep, ratio), nontrivial=nontriv,
-                               sample={"method": method, "order": order, "sampled_volumes": nv, "data": dcls, "expansion_ratio": ratio,
+                               sample={"method": method, "order": order, "sampled_volumes": nv, "data": dcls, "expansion_ratio": ratio, "lnV_span": span, "V_max": vmax,
                                        "nq": nq, "modes": np_, "grid_points": len(v)})
                 if r is None:
                     continue
